@@ -60,7 +60,7 @@ Print Assumptions count_triangles_exact.
     are the core numbers — [core_number g v k]: v lies in a set whose members all have >= k neighbours
     inside the set, and in no such set for a larger k. (No hypothesis on g is needed at this level;
     symmetry is what makes the L0 degree array equal the remaining degree. L0 = MinHeap + compute_core
-    as coded is tied to this level by the correspondence run and by heap_pop_is_min_partial only.) *)
+    as coded is tied to this level by compute_core_refines_peel / compute_core_exact at the end of this file.) *)
 Theorem peel_is_core_number (g : graph) (choice labels : list nat) :
   peel g choice = Some labels ->
   List.length labels = List.length g /\
@@ -112,10 +112,9 @@ Print Assumptions count_cliques_L1_exact.
 
 (** MinHeap (L0), partial: IF the heap invariant holds ([val]/[pos] inverse on the live part, every live
     entry at least its parent, parent i = (i-1)//2), pop_min returns the root and the root has minimum
-    score among the live entries. Missing (hence _partial): preservation of [heap_ok] by insert_key,
-    decrease_key, pop_min/min_heapify, and the refinement compute_core (L0) -> peel (L1); the harness
-    evaluates [core_heap_inv] (the executable invariant, sound by heap_ok_b_sound, checked before every
-    pop) and the L0 / L1 / implementation labels on every case instead. *)
+    score among the live entries. (Kept under its original name; the preservation of [heap_ok] by
+    insert_key, decrease_key, pop_min/min_heapify and the refinement compute_core (L0) -> peel (L1) that
+    were missing when this was stated are now proved: see the last section of this file.) *)
 Theorem heap_pop_is_min_partial (h : heap) (scores : list Z) :
   heap_ok h scores -> 0 < h_size h ->
   let m := fst (pop_min h scores) in
